@@ -75,6 +75,13 @@ def cm_b(inputs):
     return {'yb': np.sin(ya) + 0.5 * x1, 'model_cost': 2e-3}
 
 
+def cm_c(inputs):
+    # a component WITHOUT surrogate: its model is called inside every system prediction, i.e. also while refine() scans candidates
+    event('model.nosurr', 'c')
+    yb, x0 = float(np.atleast_1d(inputs['yb'])[0]), float(np.atleast_1d(inputs['x0'])[0])
+    return {'yc': yb * yb + x0}
+
+
 def truth_a(alpha, x0, x1):
     return float(np.exp(0.4 * x0) * (1.0 + 0.15 * sum(alpha)) + 0.3 * x1 ** 2)
 
